@@ -103,6 +103,10 @@ type Struct struct {
 	Fields     []StructField
 	Comments   []SpecialComment
 	Implements []*Union
+
+	// fields left out of `Fields` because their JSON name is ambiguous :
+	// they still hide deeper fields when the struct is embedded
+	ambiguous []StructField
 }
 
 func (cl *Struct) Type() types.Type { return cl.Name }
